@@ -771,15 +771,15 @@ func phases(thorough bool) []phase {
 		a := newAlphabet(keysQuick, allVals)
 		return []phase{
 			{"empty/4keys", a, nil, d("C02_DEPTH", 5)},
-			// populated tries in different representations, then every history of 3 more operations
-			{"full-1B-dirty/4keys", a, seedHist(a, []int{1}), d("C02_SEED_DEPTH", 3)},
-			{"full-32B-unloaded/4keys", a, seedHist(a, []int{4}, opCommitDisk, opCommitDisk), d("C02_SEED_DEPTH", 3)},
-			{"full-mixed-reopened/4keys", a, seedHist(a, []int{2, 1, 5, 3}, opCommitDisk, opReopen), d("C02_SEED_DEPTH", 3)},
+			// populated tries in different representations, then every history of 4 more operations
+			{"full-1B-dirty/4keys", a, seedHist(a, []int{1}), d("C02_SEED_DEPTH", 4)},
+			{"full-32B-unloaded/4keys", a, seedHist(a, []int{4}, opCommitDisk, opCommitDisk), d("C02_SEED_DEPTH", 4)},
+			{"full-mixed-reopened/4keys", a, seedHist(a, []int{2, 1, 5, 3}, opCommitDisk, opReopen), d("C02_SEED_DEPTH", 4)},
 		}
 	}
 	a4 := newAlphabet(keysQuick, allVals)
 	a8 := newAlphabet(keysThorough, allVals)
-	sd := d("C02_SEED_DEPTH", 3)
+	sd := d("C02_SEED_DEPTH", 4)
 	return []phase{
 		{"empty/8keys", a8, nil, d("C02_DEPTH8", 5)},
 		{"full-1B-dirty/8keys", a8, seedHist(a8, []int{1}), sd},
@@ -823,7 +823,12 @@ func run(c *fw.Ctx) {
 			defer pprof.StopCPUProfile()
 		}
 	}
-	debug.SetGCPercent(400)
+	debug.SetGCPercent(150)
+	if c.Thorough() {
+		debug.SetMemoryLimit(16 << 30)
+	} else {
+		debug.SetMemoryLimit(2 << 30)
+	}
 	ngo := runtime.NumCPU()
 	if c.NShards > 1 {
 		ngo = (ngo + c.NShards - 1) / c.NShards
